@@ -44,7 +44,13 @@ def parse_arms(block, cs, rel, what):
         raise GenError(f"{rel}: FromStr for {what} has {n_arrows} Caseless(..) patterns but {len(arms)} recognised arms")
     if not re.search(r"match\s+Caseless\(\s*text\s*\)", block):
         raise GenError(f"{rel}: FromStr for {what} no longer matches on Caseless(text)")
-    return [(m, resolve(cs, c, rel)) for m, c in arms], n_generic
+    out = [(m, resolve(cs, c, rel)) for m, c in arms]
+    # The arms test string equality (ASCII case-insensitively): when the mnemonics are pairwise distinct they are
+    # mutually exclusive and their order has no meaning, so they are emitted in one canonical order (by value);
+    # otherwise the first match wins and the source order is kept.
+    if len({m.lower() for m, _ in out}) == len(out):
+        out.sort(key=lambda e: e[1])      # stable: equal values keep source order
+    return out, n_generic
 
 
 def display_arms(block, cs, rel, what):
@@ -53,7 +59,10 @@ def display_arms(block, cs, rel, what):
     n = len(re.findall(r"Self::[A-Z0-9_]+\s*=>", block))
     if not arms or n != len(arms):
         raise GenError(f"{rel}: Display for {what}: {n} `Self::X =>` arms but {len(arms)} recognised")
-    return [(resolve(cs, c, rel), a or b) for c, a, b in arms]
+    out = [(resolve(cs, c, rel), a or b) for c, a, b in arms]
+    if len({v for v, _ in out}) == len(out):      # arms for distinct values are mutually exclusive: canonical order
+        out.sort(key=lambda e: e[0])
+    return out
 
 
 def fallthrough_fmt(block, rel, what):
